@@ -36,6 +36,8 @@ def run(ctx):
     from . import C01
     C01.b_param_binding(ctx, rule="C02.a.param-binding")
     scope, nm = _railrules.reject_stop(ctx, "C02.c.reject-stop", ("output",))
+    _railrules.refusal_defined(ctx, "C02.c.refusal-defined", ("output",))
+    _railrules.context_globals(ctx, "C02.d.context-globals", ("output",))
     ctx.floor("C02.c.reject-stop", "nemoguardrails/library", "rejection markers in output rails", nm, 30)
     d_v2(ctx)
 
@@ -287,10 +289,43 @@ def d_v2(ctx):
                     ok, msg = False, "the text checked (`%s`) is not the text uttered (`%s`)" % (p.steps[ir].text, p.steps[iu].text)
                     break
                 # the parameter must not be re-assigned between the rails and the utterance
-                if any(s.kind == "assign" and s.target == param for s in p.steps[ir:iu]):
+                # - except from the global the rails inspect and may rewrite (`$bot_message`), provided that global was bound to the parameter before the rails ran:
+                # then the uttered text is the checked text or what the rails made of it (F82)
+                def _from_checked_global(s, pre):
+                    m_ = re.match(r"^\$(\w+)$", (s.expr or "").strip())
+                    if not (m_ and s.op is None):
+                        return False
+                    gname = m_.group(1)
+                    declared = any(x.kind == "global" and x.target == gname for x in say.walk())
+                    bound = any(x.kind == "assign" and x.target == gname and (x.expr or "").strip() == "$" + param for x in pre)
+                    return declared and bound
+                bad_re = [s for s in p.steps[ir:iu] if s.kind == "assign" and s.target == param and not _from_checked_global(s, p.steps[:ir])]
+                if bad_re:
                     ok, msg = False, "$%s is re-assigned between the rails call and the utterance" % param
                     break
         ctx.check("C02.d.gate", say.file, say.name, fv_name, ok, msg, line=say.line)
+    # F82: shipped Colang 2.x output rails REWRITE the message through a global (`global $bot_message` + assignment).  What is uttered after the rails must be read back
+    # from that global, otherwise the rewrite (masked PII) is discarded and the original text is sent.
+    rewritten = set()
+    for lf in rails.library_flows(ctx.tree):
+        if lf.dialect == "2.x" and _railrules.classify_rail(lf) == "output":
+            gl = {x.target for x in lf.walk() if x.kind == "global"}
+            rewritten |= {x.target for x in lf.walk() if x.kind == "assign" and x.target in gl and x.target.endswith("message")}
+    if rewritten:
+        w = Walker()
+        ok, msg = True, "after the rails the utterance reads the text back from %s" % sorted("$" + r for r in rewritten)
+        for p in w.run(say.body, {fl: False for fl in flags}):
+            iu = p.index(utter)
+            ir = p.index(lambda s: colang2.flow_call_name(s) == runner.name and s.kind in ("await", "call"))
+            if iu < 0 or ir < 0:
+                continue
+            back = any(s.kind == "assign" and s.target == param and (s.expr or "").strip().lstrip("$") in rewritten for s in p.steps[ir:iu]) or \
+                any(("$" + r) in (p.steps[iu].args or "") for r in rewritten)
+            if not back:
+                ok, msg = False, ("shipped output rails rewrite %s (mask sensitive data on output, autoalign PII redaction), but `%s` utters the parameter `$%s` it received: the rewritten "
+                                  "text is discarded and the original (unmasked) message is returned" % (sorted("$" + r for r in rewritten), say.name, param))
+                break
+        ctx.check("C02.d.rewrite-uttered", say.file, say.name, "text uttered after the rails", ok, msg, line=say.line)
     # runner awaits `output rails` when defined
     rparam = runner.params[0][0] if runner.params else None
     for val, lab in ((True, "defined"), (False, "undefined")):
